@@ -69,7 +69,9 @@ TRUSTED = [
     "one L2 connection at a time per side and flow-control calls only from the registered transport (C11, Twisted "
     "producer contract) — the model's `enabledA`; world l2 creates one link at a time and lets a side lose a link "
     "only after both ends selected it (the races around candidate links are C11's subject)",
-    "the mailbox-level reconnect handshake is replaced by calling rx_RECONNECT / rx_RECONNECTING right after a loss",
+    "the mailbox-level reconnect handshake is replaced by calling rx_RECONNECT / rx_RECONNECTING right after a loss "
+    "that REACHED the Manager (a loss the Manager never hears of is not repaired by the harness); timers are not "
+    "advanced (C16)",
     "subchannel producers (C15) and the local SubChannel state machine of the sending application (C13) are not part "
     "of this model: the sender calls Manager.send_open/send_data/send_close or the real connector_for().connect() "
     "with a protocol that writes / closes inside connectionMade (every such write is one `write` event of the "
@@ -78,7 +80,10 @@ TRUSTED = [
     "receiver write), the ones for subprotocol g greet from inside connectionMade",
     "ToyNoise with the 65535-byte per-message limit of Noise (LimitedNoise)",
 ]
-RULE = ("schedules of open/write/close on <=3 subchannels per direction (three subprotocol names), both sides writing on "
+RULE = ("schedules of open/write/close on <=3 subchannels per direction (five subprotocol names, two of them valid but "
+        "not NFC: decomposed accent, Hangul jamo + ANGSTROM SIGN + ligature, the identical str on both sides), the "
+        "connection dying between an end's KCM and its Connector's accept turn (leader and follower, first and later "
+        "generations; exactly one eventual turn of the real EventualQueue, the loss one turn later), both sides writing on "
         "the same subchannel (the listening application answers through its protocol and closes peer-opened "
         "subchannels, also as its very first record, with asymmetric loss around the close), real connect() calls "
         "with re-entrant protocols on either side, write sizes at the chunking boundaries of the record layer "
@@ -93,7 +98,9 @@ RULE = ("schedules of open/write/close on <=3 subchannels per direction (three s
         "record or ack, a pause inside the drain, a parked burst or a late listener happened; distinct = distinct "
         "canonical traces")
 
-NAMES = ["a", "é", "g"]
+NFD = "cafe\u0301"                       # valid, but not NFC (decomposed accent)
+JAMO = "\u1112\u1161\u11ab\u212b\ufb01"     # Hangul jamo + ANGSTROM SIGN (NFC rewrites both) + a ligature (NFC keeps it)
+NAMES = ["a", "é", "g", NFD, JAMO]
 GREETER = "g"          # listened for by A only, from the start; its protocols write from connectionMade
 
 
@@ -306,6 +313,7 @@ class Link:
             self.pipe[s.name] = t
             p.makeConnection(t)
         self.gone = {"A": False, "B": False}       # connectionLost delivered to this end
+        self.deadsrc = {"A": False, "B": False}    # this end was already dead when it started writing records
         # prologues, handshakes, the follower's KCM: everything hidden is pumped until quiet; the leader's DCP
         # ends up `selecting` (its Connector has an accept turn queued), the follower's waits for the leader's KCM
         for _ in range(6):
@@ -454,8 +462,6 @@ class World:
         if self.kind == "rec" or self.link is None:
             return []
         p = self.link.dcp[s.name]
-        if self.link.gone[s.name]:
-            return []
         return list(p._inbound_record_queue)
 
     def budget(self, s):
@@ -505,7 +511,10 @@ class World:
         return (lk is not None and not lk.gone["B"] and lk.dcp["B"]._manager is None
                 and lk.dcp["A"]._manager is not None and not lk.gone["A"])
 
-    def use(self, s, budget):
+    def use(self, s, budget, dead=False):
+        """dead: the TCP connection dies after this end parsed the peer's KCM and before its Connector's accept turn
+        runs (dataReceived(KCM) and connectionLost in the same reactor iteration): exactly ONE eventual turn is run here
+        (accept -> select -> connection_made on the dead transport); the loss reaches the Manager a turn later"""
         if self.kind == "rec":
             c = FakeConn(budget)
             s.conn = c
@@ -518,7 +527,22 @@ class World:
         if not s.leader:
             self.feed_hidden(s)                  # the leader's KCM, if it has not been read yet
         lk.pipe[s.name].budget = budget
-        s.eq.flush_sync()                        # the Connector's deferred turn: accept -> select -> connection_made
+        if dead:
+            lk.gone[s.name] = True
+            lk.deadsrc[s.name] = True            # what this end writes from now on goes nowhere
+            lk.dcp[s.name].connectionLost(None)
+            if s.leader and not lk.gone["B"]:    # the follower's end never saw a KCM: it just goes away
+                lk.gone["B"] = True
+                lk.dcp["B"].connectionLost(None)
+                self.B.eq.flush_sync()
+            dc = s.eq._timer                     # ONE turn (Clock.advance(0) would also run the turns it queues)
+            if dc is None:
+                raise TurnFailed("no eventual turn is queued for the accept")
+            s.clock.calls.remove(dc)
+            dc.called = 1
+            dc.func(*dc.args, **dc.kw)
+        else:
+            s.eq.flush_sync()                    # the Connector's deferred turn: accept -> select -> connection_made
         s.conn = lk.pipe[s.name]                 # (only now: while select() drains the parked records the side's
         s.link = lk                              #  stale in-flight content is still that of its previous link)
         if not s.connected():
@@ -542,7 +566,7 @@ class World:
         lk = other.link                          # the link the peer's records are written to
         if self.kind == "rec":
             return None
-        if lk is None or lk.gone[s.name]:
+        if lk is None or lk.gone[s.name] or lk.deadsrc[other.name]:
             return None
         return lk
 
@@ -552,6 +576,8 @@ class World:
         if self.kind == "rec":
             return True
         lk = s.link
+        if lk.gone[s.name]:
+            return True                          # this end is already dead: the notification is on its way
         if lk.pipe["A"].lost or lk.pipe["B"].lost:
             return True                          # an end asked for loseConnection(): the link is going down
         return lk.dcp["A"]._manager is not None and lk.dcp["B"]._manager is not None
@@ -582,8 +608,9 @@ class World:
             s.mgr.connector_connection_lost()
         else:
             lk = s.link
-            lk.gone[s.name] = True
-            lk.dcp[s.name].connectionLost(None)  # fires when_disconnected -> eventual turn
+            if not lk.gone[s.name]:
+                lk.gone[s.name] = True
+                lk.dcp[s.name].connectionLost(None)  # fires when_disconnected -> eventual turn
             s.eq.flush_sync()                    # -> manager.connector_connection_lost()
             if s.connected():
                 raise TurnFailed("connectionLost did not reach the manager")
@@ -788,10 +815,14 @@ def _run(case, kind):
             npark = len([r for r in W.parked(s) if not isinstance(r, Ack)])
             if npark:
                 tags.add("parked-burst:" + ("1" if npark == 1 else ">=2"))
+            deaduse = (len(op) > 3 and op[3] == "dead" and kind == "l2")
+            if deaduse:
+                tags.add("loss-between-KCM-and-accept:" + ("leader" if s.leader else "follower"))
+
             def f():
                 in_use[0] = x if kind == "l2" else None
                 try:
-                    W.use(s, budget)
+                    W.use(s, budget, dead=deaduse)
                 finally:
                     in_use[0] = None
         elif k == "lose":
@@ -804,8 +835,16 @@ def _run(case, kind):
             else:
                 if not W.can_lose(s):
                     return False
+                if kind == "l2" and s.link.gone[x]:
+                    # this end died before its Connector's turn: the loss is delivered by the next eventual turn
+                    s.eq.flush_sync()
+                    if s.connected():
+                        tags.add("loss-never-reached-the-manager")
+                        return False             # nothing happened: the Manager still believes in the connection
+                    f = lambda: W.lose(s)
+                else:
+                    f = lambda: W.lose(s)
                 line = f"lose {x}"
-                f = lambda: W.lose(s)
         elif k == "pause":
             if not s.connected():
                 return False
@@ -912,6 +951,8 @@ def _run(case, kind):
         if k == "use" and s.ob._queued_unsent:
             tags.add("paused-inside-replay")
         check_prefix(lines[-1])
+        if k == "use" and kind == "l2" and len(op) > 3 and op[3] == "dead":
+            do(["lose", x])
         for y in W.reap():
             tags.add("receiver-dropped-connection")
             dropped[0] += 1
@@ -975,7 +1016,7 @@ def _run(case, kind):
                         viol.append(("subchannel-callbacks-incomplete",
                                      f"with every listener registered and everything delivered{why}, the protocol of subchannel {scid} on {peer.name} saw {fmt(peer.app_log.get(scid, []))}, issued for it {fmt(want)}"))
                         break
-    nontrivial = bool(tags & {"first-record-is-an-answer", "close-while-peer-has-unacked-data", "replay", "duplicate-dropped", "inflight-lost:data", "inflight-lost:ack",
+    nontrivial = bool(tags & {"loss-between-KCM-and-accept:leader", "loss-between-KCM-and-accept:follower", "first-record-is-an-answer", "close-while-peer-has-unacked-data", "replay", "duplicate-dropped", "inflight-lost:data", "inflight-lost:ack",
                               "paused-inside-replay", "write-behind-replay", "ack-not-sent", "op:park",
                               "late-listener", "connect:reentrant", "big-write"})
     return Result(lines, exp, viol, sorted(tags), nontrivial)
@@ -1025,7 +1066,7 @@ class AppGen:
         if r0 < 0.14:
             return ["pclose", self.x, rng.choice([0, 0, 1, 2])]
         if r0 < 0.28:
-            names = ["a", "é"] if self.x == "A" else ["a", "é", "g", "g"]
+            names = ["a", "é", NFD, JAMO] if self.x == "A" else ["a", "é", "g", "g", NFD, JAMO]
             greetings = [bytes(rng.randrange(256) for _ in range(rng.choice([0, 1, 3]))).hex()
                          for _ in range(rng.choice([0, 1, 1, 2]))]
             return ["connect", self.x, rng.choice(names), greetings, rng.random() < 0.4]
@@ -1033,7 +1074,7 @@ class AppGen:
             scid = self.next_scid
             self.next_scid += 2
             self.open.append(scid)
-            return ["write", self.x, "open", scid, rng.choice(["a", "a", "é"])]
+            return ["write", self.x, "open", scid, rng.choice(["a", "a", "é", NFD, JAMO])]
         scid = rng.choice(self.open)
         if rng.random() < 0.12:
             self.open.remove(scid)
@@ -1097,9 +1138,16 @@ def gen_realistic(rng, gens, big=0.0):
 
     some_writes(rng.randrange(0, 5))
     for _g in range(gens):
+        if rng.random() < 0.08:
+            ops.append(["use", "A", 0, "dead"])  # dies between the follower's KCM and the leader's accept turn
         ops.append(["use", "A", rng.choice([0, 0, 0, 1, 2])])
         for _ in range(rng.choice([0, 0, 1, 2, 3, 5])):
             ops.append(["deliver", "B"])        # reaches the follower's connection before its select() turn
+        if rng.random() < 0.08:
+            # the follower's end dies between the leader's KCM and its own accept turn; both give the link up
+            ops += [["use", "B", 0, "dead"], ["lose", "A"], ["use", "A", 0]]
+            for _ in range(rng.choice([0, 1, 3])):
+                ops.append(["deliver", "B"])
         ops.append(["use", "B", rng.choice([0, 0, 1, 2])])
         for _ in range(rng.randrange(2, 14)):
             r = rng.random()
@@ -1247,6 +1295,23 @@ def corpus():
         out.append((w, [["listen", "A", "a"], ["use", "A", 0], ["use", "B", 0], ["connect", "B", "a", ["aa"], False],
                         ["deliver", "A"], ["deliver", "A"], ["pclose", "A", 0], ["deliver", "B"], ["deliver", "B"],
                         ["deliver", "B"], ["lose", "B"], ["lose", "A"]]))
+    # 19. (l2) the TCP connection dies after an end parsed the peer's KCM and before its Connector's accept turn:
+    #     the Manager is handed a dead connection and must learn of the loss one turn later; leader and follower,
+    #     first and later generations, with writes queued before and issued after
+    out.append(("l2", L + [o("A", 1), d("A", 1, "01"), ["use", "A", 0, "dead"], d("A", 1, "02"), ["use", "A", 0],
+                           ["deliver", "B"], ["deliver", "B"], ["use", "B", 0], d("A", 1, "03")]))
+    out.append(("l2", L + [o("A", 1), d("A", 1, "01"), o("B", 2), ["use", "A", 0], ["deliver", "B"], ["deliver", "B"],
+                           ["use", "B", 1, "dead"], d("B", 2, "b1"), ["lose", "A"], d("A", 1, "02")]))
+    out.append(("l2", L + [["use", "A", 0], ["use", "B", 0], o("A", 1), o("B", 2), ["deliver", "B"], ["deliver", "A"],
+                           ["lose", "B"], ["lose", "A"], d("A", 1, "01"), d("B", 2, "02"), ["use", "A", 0, "dead"],
+                           d("A", 1, "03"), ["use", "A", 0], ["deliver", "B"], ["use", "B", 0, "dead"], d("B", 2, "04"),
+                           ["lose", "A"]]))
+    # 20. (both worlds) subprotocol names that are valid but not NFC (decomposed accent; Hangul jamo + ANGSTROM SIGN +
+    #     ligature): both sides use the identical str, the subchannel must reach the listener registered for it
+    for w in ("rec", "l2"):
+        out.append((w, [["listen", "B", NFD], ["listen", "A", JAMO], ["use", "A", 0], ["use", "B", 0], o("A", 101, NFD),
+                        d("A", 101, "01"), o("B", 102, JAMO), d("B", 102, "02"), o("A", 103, JAMO),
+                        ["connect", "B", NFD, ["aa"], True], c("A", 101)] + [["deliver", "B"], ["deliver", "A"]] * 5))
     # 9. adversarial: stop_using_connection without a connection
     out.append(("rec", [o("A", 1), ["lose", "A", "force"]]))
     return [dict(kind="sched", world=w, ops=ops) for w, ops in out]
